@@ -1,1 +1,245 @@
-(* C06 stub: to be written *)
+(* C06 -- model of epgpy/exchange.py (operator X, exchange_matrix, exchange_operator).
+   Generic over the scalars [S : ScalOps] plus an inverse [inv : S -> S] (a field) and the
+   constant [twopii] = 2 pi i.  Matrices over N compartments are index functions
+   [nat -> nat -> S] (entries outside [0,N) are irrelevant); n-d arrays are (shape, row-major data)
+   accessed index-wise with numpy's "size 1 -> index 0" broadcasting, LEFT aligned as everywhere in
+   epgpy (common.broadcastable(..., append=True)).
+   The matrix exponential is NOT modelled: the operator's [mat] array is an input of [x_apply]
+   (injected from the implementation), and [x_generator] is the array handed to [expm]. *)
+From Coq Require Import List ZArith Lia Bool Arith.
+From EPG Require Import Scalar State.
+Import ListNotations.
+
+Section Exchange.
+Variable S : ScalOps.
+
+(* ---------------------------------------------------------------- finite sums, N x N matrices *)
+Fixpoint ksum (n : nat) (f : nat -> S) : S :=
+  match n with O => k0 | Datatypes.S m => (ksum m f + f m)%K end.
+
+Definition matN : Type := nat -> nat -> S.
+Definition delta (i j : nat) : S := if Nat.eqb i j then k1 else k0.
+Definition midN : matN := delta.
+Definition diagN (d : nat -> S) : matN := fun i j => (d i * delta i j)%K.
+Definition mmulN (n : nat) (A B : matN) : matN := fun i j => ksum n (fun l => A i l * B l j)%K.
+Definition mvN (n : nat) (A : matN) (v : nat -> S) : nat -> S := fun i => ksum n (fun j => A i j * v j)%K.
+Definition conjN (A : matN) : matN := fun i j => kconj (A i j).
+Definition moppN (A : matN) : matN := fun i j => (- A i j)%K.
+Definition of_rows (l : list (list S)) : matN := fun i j => nth j (nth i l []) k0.
+Definition colsum (n : nat) (A : matN) (j : nat) : S := ksum n (fun i => A i j).
+
+Fixpoint knat (n : nat) : S := match n with O => k0 | Datatypes.S m => (knat m + k1)%K end.
+
+(* ---------------------------------------------------------------- exchange_matrix (exchange.py:127-151)
+   kron = eye(n) + (eye(n) - 1)/(n - 1);  kron /= densities (last axis);  k * kron *)
+Variable inv : S -> S.
+
+Definition kron (n : nat) (dens : option (nat -> S)) : matN := fun i j =>
+  let e := (delta i j + (delta i j - k1) * inv (knat (n - 1)))%K in
+  match dens with None => e | Some d => (e * inv (d j))%K end.
+Definition exchange_matrix (k : S) (n : nat) (dens : option (nat -> S)) : matN :=
+  fun i j => (k * kron n dens i j)%K.
+
+(* ---------------------------------------------------------------- generators (exchange.py:185-187)
+   xT = -khi + (-1/T2 + 2j pi g)[..., NAX] * eye ;  xL = -khi + (-1/T1)[..., NAX] * eye ;  1/inf = 0 *)
+Variable twopii : S.
+Definition rate_inv (T : option S) : S := match T with None => k0 | Some t => inv t end.
+Definition rateT (T2 : option S) (g : S) : S := (- rate_inv T2 + twopii * g)%K.
+Definition rateL (T1 : option S) : S := (- rate_inv T1)%K.
+Definition xiT (khi : matN) (T2 : nat -> option S) (g : nat -> S) : matN :=
+  fun i j => (- khi i j + rateT (T2 i) (g i) * delta i j)%K.
+Definition xiL (khi : matN) (T1 : nat -> option S) : matN :=
+  fun i j => (- khi i j + rateL (T1 i) * delta i j)%K.
+
+(* ---------------------------------------------------------------- X._apply on one fibre
+   (N compartments x phase states, all other batch indices fixed): mat . (states - equilibrium) + equilibrium,
+   with [mT, conj mT, mL] acting on F+, F-, Z. *)
+Definition fibre : Type := nat -> nat -> triple S.     (* compartment j, phase-state index k *)
+
+Definition x_apply_fibre (n : nat) (MT MC ML : matN) (st eq : fibre) : fibre := fun i k =>
+  mk3 (ksum n (fun j => MT i j * (fp (st j k) - fp (eq j k))) + fp (eq i k))%K
+      (ksum n (fun j => MC i j * (fm (st j k) - fm (eq j k))) + fm (eq i k))%K
+      (ksum n (fun j => ML i j * (fz (st j k) - fz (eq j k))) + fz (eq i k))%K.
+
+(* conservation test of X._apply:  khi . density = 0 (one fibre) *)
+Definition conservesb (n : nat) (khi : matN) (dens : nat -> S) : bool :=
+  forallb (fun i => keqb (ksum n (fun j => khi i j * dens j)%K) k0) (seq 0 n).
+
+(* ---------------------------------------------------------------- n-d arrays *)
+Definition prodl (l : list nat) : nat := fold_right Nat.mul 1%nat l.
+Fixpoint ravel (shape idx : list nat) (acc : nat) : nat :=
+  match shape, idx with
+  | d :: sh, i :: ix => ravel sh ix (acc * d + (if Nat.eqb d 1 then 0 else i))
+  | _, _ => acc
+  end.
+Fixpoint unravel (shape : list nat) (n : nat) : list nat :=
+  match shape with
+  | [] => []
+  | d :: sh => (n / prodl sh) :: unravel sh (n mod prodl sh)
+  end.
+Definition get (shape : list nat) (data : list S) (idx : list nat) : S := nth (ravel shape idx 0) data k0.
+Fixpoint set_at (p v : nat) (l : list nat) : list nat :=
+  match l, p with
+  | [], _ => []
+  | _ :: t, O => v :: t
+  | h :: t, Datatypes.S q => h :: set_at q v t
+  end.
+Fixpoint insert_at (p v : nat) (l : list nat) : list nat :=
+  match p, l with
+  | O, _ => v :: l
+  | Datatypes.S q, h :: t => h :: insert_at q v t
+  | Datatypes.S q, [] => [v]
+  end.
+(* left-aligned broadcast of two shapes (None: incompatible) *)
+Fixpoint bshape (a b : list nat) : option (list nat) :=
+  match a, b with
+  | [], _ => Some b
+  | _, [] => Some a
+  | x :: a', y :: b' =>
+      match bshape a' b' with
+      | None => None
+      | Some r => if Nat.eqb x y then Some (x :: r) else if Nat.eqb x 1 then Some (y :: r)
+                  else if Nat.eqb y 1 then Some (x :: r) else None
+      end
+  end.
+Definition all_idx (shape : list nat) : list (list nat) := map (unravel shape) (seq 0 (prodl shape)).
+
+(* ---------------------------------------------------------------- constructor guards (exchange.py:44-56) *)
+Inductive guard := GOk (axis : nat) | GErrNdim | GErrSquare | GErrColumns.
+
+Definition norm_axis (len : nat) (axis : Z) : nat :=
+  if (axis <? 0)%Z then Z.to_nat (Z.of_nat len + axis) else Z.to_nat axis.
+
+Definition x_guard (khishape : list nat) (khi : list S) (axis : Z) : guard :=
+  if length khishape <? 2 then GErrNdim else
+  let bs := removelast khishape in
+  let n := last khishape 0 in
+  let ax := norm_axis (length bs) axis in
+  if negb (Nat.eqb (nth ax bs 0) n) then GErrSquare else
+  if forallb (fun idx => forallb (fun j =>
+        keqb (ksum n (fun i => get khishape khi (set_at ax i idx ++ [j]))) k0) (seq 0 n))
+       (all_idx (set_at ax 1 bs))
+  then GOk ax else GErrColumns.
+
+(* ---------------------------------------------------------------- exchange_operator with expm = identity:
+   the stacked array [xT*tau, conj(xT*tau), xL*tau] with the two compartment axes at (axis, axis+1).
+   Parameter arrays are (shape, data) pairs, T = None encodes an infinite entry. *)
+Definition arr : Type := (list nat * list S)%type.
+Definition oarr : Type := (list nat * list (option S))%type.
+Definition geto (a : oarr) (idx : list nat) : option S := nth (ravel (fst a) idx 0) (snd a) None.
+
+Definition bshape4 (a b c d e : list nat) : option (list nat) :=
+  match bshape a b with None => None | Some r1 =>
+  match bshape r1 c with None => None | Some r2 =>
+  match bshape r2 d with None => None | Some r3 => bshape r3 e end end end.
+
+Definition x_generator (ax : nat) (khi : arr) (tau : arr) (T1 T2 : oarr) (g : arr) : option arr :=
+  let bs := removelast (fst khi) in
+  let n := last (fst khi) 0 in
+  match bshape4 (fst tau) (fst T1) (fst T2) (fst g) bs with
+  | None => None
+  | Some shape =>
+    let oshape := insert_at (ax + 1) n shape ++ [3] in
+    Some (oshape, map (fun m =>
+      let idx := unravel oshape m in
+      let c := last idx 0 in
+      let full := removelast idx in                  (* b with i at ax and j at ax+1 *)
+      let i := nth ax full 0 in let j := nth (ax + 1) full 0 in
+      let b := firstn (ax + 1) full ++ skipn (ax + 2) full in     (* batch index incl. i at ax *)
+      let K : matN := fun i' j' => get (fst khi) (snd khi) (firstn (length bs) (set_at ax i' b) ++ [j']) in
+      let t2 : nat -> option S := fun i' => geto T2 (set_at ax i' b) in
+      let t1 : nat -> option S := fun i' => geto T1 (set_at ax i' b) in
+      let gg : nat -> S := fun i' => get (fst g) (snd g) (set_at ax i' b) in
+      let ta := get (fst tau) (snd tau) b in
+      match c with
+      | 0 => (xiT K t2 gg i j * ta)%K
+      | 1 => kconj (xiT K t2 gg i j * ta)%K
+      | _ => (xiL K t1 i j * ta)%K
+      end) (seq 0 (prodl oshape)))
+  end.
+
+(* ---------------------------------------------------------------- X._apply on arrays (exchange.py:89-120) *)
+Record xop : Type := mkX { x_ax : nat; x_shape : list nat; x_mat : list S; x_khi : arr }.
+Record smN : Type := mkSMN { s_shape : list nat; s_ns : nat; s_st : list S; s_eq : arr; s_dens : list S }.
+Inductive xres := XOk (shape : list nat) (states : list S) | XErrConserve | XErrShape.
+
+Definition sel (c : nat) (t : triple S) : S := match c with 0 => fp t | 1 => fm t | _ => fz t end.
+
+Definition x_apply (o : xop) (s : smN) : xres :=
+  let ax := x_ax o in
+  let n := nth ax (x_shape o) 0 in
+  let kbs := removelast (fst (x_khi o)) in
+  let khiN (b : list nat) : matN := fun i j =>
+    get (fst (x_khi o)) (snd (x_khi o)) (firstn (length kbs) (set_at ax i b) ++ [j]) in
+  let densN (b : list nat) : nat -> S := fun j => get (s_shape s) (s_dens s) (set_at ax j b) in
+  if negb (forallb (fun b => conservesb n (khiN b) (densN b)) (all_idx (set_at ax 1 (s_shape s))))
+  then XErrConserve
+  else if negb (Nat.eqb (nth ax (s_shape s) 0) 1 || Nat.eqb (nth ax (s_shape s) 0) n) then XErrShape
+  else match bshape (x_shape o) (set_at ax n (s_shape s)) with
+  | None => XErrShape
+  | Some oshape =>
+    let full := oshape ++ [s_ns s; 3] in
+    let mshape := insert_at (ax + 1) n (x_shape o) ++ [3] in
+    let stshape := s_shape s ++ [s_ns s; 3] in
+    XOk oshape (map (fun m =>
+      let idx := unravel full m in
+      let nd := length oshape in
+      let b := firstn nd idx in
+      let k := nth nd idx 0 in let c := nth (nd + 1) idx 0 in
+      let i := nth ax b 0 in
+      let M (c' : nat) : matN := fun i' j' =>
+        get mshape (x_mat o) (insert_at (ax + 1) j' (set_at ax i' (firstn (length (x_shape o)) b)) ++ [c']) in
+      let fib (sh : list nat) (d : list S) : fibre := fun j' k' =>
+        mk3 (get sh d (set_at ax j' b ++ [k'; 0])) (get sh d (set_at ax j' b ++ [k'; 1]))
+            (get sh d (set_at ax j' b ++ [k'; 2])) in
+      sel c (x_apply_fibre n (M 0) (M 1) (M 2) (fib stshape (s_st s)) (fib (fst (s_eq s)) (snd (s_eq s))) i k))
+      (seq 0 (prodl full)))
+  end.
+
+(* executable comparisons *)
+Fixpoint leqb (l1 l2 : list S) : bool :=
+  match l1, l2 with
+  | [], [] => true
+  | x :: a, y :: b => keqb x y && leqb a b
+  | _, _ => false
+  end.
+Fixpoint shape_eqb (l1 l2 : list nat) : bool :=
+  match l1, l2 with
+  | [], [] => true
+  | x :: a, y :: b => Nat.eqb x y && shape_eqb a b
+  | _, _ => false
+  end.
+(* observed: 0 = ok, 1 = conservation error, 2 = shape error *)
+Definition x_apply_ok (o : xop) (s : smN) (code : nat) (oshape : list nat) (obs : list S) : bool :=
+  match x_apply o s, code with
+  | XOk sh d, 0 => shape_eqb sh oshape && leqb d obs
+  | XErrConserve, 1 => true
+  | XErrShape, 2 => true
+  | _, _ => false
+  end.
+Definition x_generator_ok (ax : nat) (khi tau : arr) (T1 T2 : oarr) (g : arr) (oshape : list nat) (obs : list S) : bool :=
+  match x_generator ax khi tau T1 T2 g with
+  | Some (sh, d) => shape_eqb sh oshape && leqb d obs
+  | None => false
+  end.
+(* observed guard code: 0 ok (with normalised axis), 1 ndim, 2 square, 3 columns *)
+Definition x_guard_ok (khishape : list nat) (khi : list S) (axis : Z) (code ax : nat) : bool :=
+  match x_guard khishape khi axis, code with
+  | GOk a, 0 => Nat.eqb a ax
+  | GErrNdim, 1 => true | GErrSquare, 2 => true | GErrColumns, 3 => true
+  | _, _ => false
+  end.
+Definition exchange_matrix_ok_b (k : S) (n : nat) (dens : option (list S)) (obs : list S) : bool :=
+  leqb (map (fun m => exchange_matrix k n (option_map (fun l j => nth j l k0) dens) (m / n) (m mod n)) (seq 0 (n * n))) obs.
+
+End Exchange.
+
+Arguments ksum {S}. Arguments delta {S}. Arguments midN {S}. Arguments diagN {S}. Arguments mmulN {S}.
+Arguments mvN {S}. Arguments conjN {S}. Arguments moppN {S}. Arguments of_rows {S}. Arguments colsum {S}.
+Arguments x_apply_fibre {S}. Arguments conservesb {S}. Arguments knat {S}.
+
+(* ---------------------------------------------------------------- executed instance: Gaussian rationals with division *)
+From Coq Require Import QArith Qcanon.
+From EPG Require Import QI.
+Definition qi_inv (x : QI) : QI :=
+  let n := (fst x * fst x + snd x * snd x)%Qc in ((fst x / n)%Qc, (- snd x / n)%Qc).
